@@ -231,6 +231,39 @@ def run(ctx):
     if not ok:
         res.find(key, "%s:%d" % (ewrite["file"], ewrite["ln"]), "the Prefix arm of Expression::write prints its operand bare on some path (%s): with an operator that prints nothing (`+`) or an infix operand the text regroups" % detail,
                  "Infix(Prefix(+, a+b), *, c) prints `%a+%b*%c`")
+    # both operands of the Infix arm go through the grouping printer, never through the bare writer
+    infw = [a for k, a in warms.items() if k.startswith("Infix")]
+    key = "K7|operand-atomic|infix-operands-through-grouping"
+    ok = False
+    detail = {}
+    if len(infw) == 1:
+        calls_ = find_all(infw[0]["body"], lambda n: n.get("k") == "call" and n["f"].get("k") == "path" and n["f"]["p"].rsplit("::", 1)[-1] == "format_inner_expression")
+        operands = sorted({src(c["args"][-1]).strip("&* ") for c in calls_ if c.get("args")})
+        direct = [src(x)[:50] for x in find_all(infw[0]["body"], lambda n: n.get("k") == "mcall" and n["m"] in ("write", "to_quil", "to_quil_or_debug", "to_string"))]
+        ok = operands == ["left", "right"] and not direct and not infw[0].get("guard")
+        detail = {"grouped_operands": operands, "bare_writes": direct}
+    res.site(key, True, dict(detail, verdict="ok" if ok else "VIOLATION"))
+    if not ok:
+        res.find(key, "%s:%d" % (ewrite["file"], ewrite["ln"]), "the Infix arm of Expression::write does not print both operands through format_inner_expression (%s)" % detail, "a*(b+c) prints as a*b+c")
+    # an Address always prints as `name[index]`, whatever the name; the identifier parser therefore has to try the
+    # bracketed memory reference BEFORE it looks the word up among the function / constant keywords
+    key = "K8|bracketed-address-before-keywords"
+    kw_match = None
+    for m_ in find_all(pident["body"], lambda n: n.get("k") == "match"):
+        pats_ = {src(a["pat"]).strip("'\"") for a in m_["arms"]}
+        if {"cis", "pi"} <= pats_:
+            kw_match = m_
+    brk = find_all(pident["body"], lambda n: n.get("k") == "path" and n["p"].rsplit("::", 1)[-1] == "parse_memory_reference_with_brackets")
+    rets = [r for r in find_all(pident["body"], lambda n: n.get("k") == "return") if find_all(r, lambda n: n.get("k") == "path" and n["p"].endswith("Expression::Address"))]
+    ok = kw_match is not None and len(brk) >= 1 and brk[0]["ln"] < kw_match["ln"] and any(r["ln"] < kw_match["ln"] for r in rets)
+    # MemoryReference prints its brackets unconditionally
+    mw = [f_ for f_ in syn.fns if f_["name"] == "write" and f_.get("impl_self") == "MemoryReference" and "declaration.rs" in f_["file"]]
+    mem_txt = emissions(mw[0]["body"]) if len(mw) == 1 else []
+    always_brackets = [x for x in mem_txt if x[0] == "lit"] == [("lit", "["), ("lit", "]")] and not find_all(mw[0]["body"], lambda n: n.get("k") in ("if", "match")) if len(mw) == 1 else False
+    ok = ok and always_brackets
+    res.site(key, True, {"keyword_match_found": kw_match is not None, "bracketed_parser_first": bool(brk) and kw_match is not None and brk[0]["ln"] < kw_match["ln"], "returns_address_before_keywords": any(kw_match is not None and r["ln"] < kw_match["ln"] for r in rets), "printer_always_brackets": always_brackets, "verdict": "ok" if ok else "VIOLATION"})
+    if not ok:
+        res.find(key, "%s:%d" % (pident["file"], pident["ln"]), "parse_expression_identifier does not try `name[index]` before the keyword table (or MemoryReference no longer always prints its brackets): a region named like a function or constant does not parse back", "Address(exp[0]) prints `exp[0]`, which the parser reads as the start of a call to exp")
     # R3 parser contract
     key = "K8|single-prefix-binds-tightest"
     is_prefix_ctor = lambda n: (n.get("k") == "path" and n["p"].endswith("Expression::Prefix")) or (n.get("k") == "struct" and str(n.get("path", "")).endswith("PrefixExpression"))
